@@ -75,7 +75,7 @@ type concAlphabet struct {
 func concAlphabets(thorough bool) []concAlphabet {
 	a := []concAlphabet{
 		{Kind: "regular", Prefixes: [][]string{{}, {"h:Mr0:500:ok"}},
-			Ops: []string{"h:Mr0:500:ok", "h:Mr0:499:ok", "h:Mr+:501:ok", "h:L:1000:ok", "r:1", "c"}},
+			Ops: []string{"h:Mr0:500:ok", "h:Mr0:499:ok", "h:Mr+:501:ok", "h:Mz0:500:ok", "h:L:1000:ok", "r:1", "c"}},
 		{Kind: "hold", Prefixes: [][]string{{"h:Mr0:500:ok"}, {"h:Mr0:1000:ok"}},
 			Ops: []string{"h:Mr0:500:ok", "h:L:1000:ok", "s:r", "c", "r:1"}},
 		{Kind: "keysend", Prefixes: [][]string{{}},
@@ -90,7 +90,7 @@ func concAlphabets(thorough bool) []concAlphabet {
 			concAlphabet{Kind: "zero", Prefixes: [][]string{{}, {"h:Mr0:500:ok"}},
 				Ops: []string{"h:Mr0:500:ok", "h:L:499:ok", "h:Mr-:499:ok", "c"}},
 			concAlphabet{Kind: "blinded", Prefixes: [][]string{{}, {"h:Pr0:500:ok"}},
-				Ops: []string{"h:Pr0:500:ok", "h:Pr+:501:ok", "h:L:1000:ok", "h:Mr0:500:ok", "r:1"}},
+				Ops: []string{"h:Pr0:500:ok", "h:Pr+:501:ok", "h:Pz0:500:ok", "h:L:1000:ok", "h:Mr0:500:ok", "r:1"}},
 		)
 	}
 	return a
@@ -617,7 +617,11 @@ func runConc(run *evid.Run, deadline time.Time, st *Stats) concResult {
 					return
 				}
 				local := &concAgg{snap: map[string]bool{}, outcomes: map[string]bool{}}
-				exploreCase(run, c, bound, deadline, st, local)
+				b := bound
+				if nops := len(c.Threads[0]) + len(c.Threads[len(c.Threads)-1]); len(c.Threads) == 2 && nops >= 3 && b > 2 {
+					b = 2 // three notifications: preemption bound 2 (sized from measured cost)
+				}
+				exploreCase(run, c, b, deadline, st, local)
 				agg.merge(local)
 			}
 		}()
@@ -625,7 +629,7 @@ func runConc(run *evid.Run, deadline time.Time, st *Stats) concResult {
 	wg.Wait()
 	cov := map[string]any{
 		"cases": agg.cases, "cases_total": len(cases), "executions": agg.execs, "scheduler_steps": agg.steps,
-		"preemption_bound": bound, "distinct_intermediate_states": len(agg.snap), "distinct_outcomes": len(agg.outcomes),
+		"preemption_bound": bound, "preemption_bound_three_op_cases": 2, "distinct_intermediate_states": len(agg.snap), "distinct_outcomes": len(agg.outcomes),
 		"deadlocks": agg.deadlocks, "nonserializable_outcomes": agg.nonserial, "nonserializable_samples": agg.nonserialSamples,
 		"wall_s": time.Since(t0).Seconds(),
 	}
